@@ -138,7 +138,7 @@ impl Scen {
         Scen {
             mem: x.nth(0).list().iter().map(|v| v.int().clamp(0, 6) as u8).collect(),
             chg: x.nth(1).list().iter().map(|v| v.int() != 0).collect(),
-            ops: x.nth(2).list().iter().map(|o| (o.nth(0).int().clamp(0, 9) as u8, o.nth(1).int().max(0) as usize, o.nth(2).int().clamp(0, 9) as u8)).collect(),
+            ops: x.nth(2).list().iter().map(|o| (o.nth(0).int().clamp(0, 12) as u8, o.nth(1).int().max(0) as usize, o.nth(2).int().clamp(0, 9) as u8)).collect(),
             nkeys: if x.nth(4).int() == 2 { x.nth(5).int().clamp(1, 200) as usize } else { 1 },
         }
     }
@@ -158,6 +158,10 @@ impl Scen {
             l(sched.iter().map(|t| a(*t as i64)).collect()),
         ])
     }
+    /// the store is kept in the CBOR format when one of the readers saves it that way
+    fn cbor(&self) -> bool {
+        self.ops.iter().any(|(k, _, _)| *k == 10)
+    }
     fn well_formed(&self) -> bool {
         let mut seen_dataset = false;
         for k in &self.mem {
@@ -173,7 +177,9 @@ impl Scen {
             && self.mem.len() <= 6
             && !self.ops.is_empty()
             && self.ops.len() <= 4
-            && self.ops.iter().all(|(k, i, _)| *k <= 1 || *k == 6 || *k == 7 || *i < self.mem.len())
+            && self.ops.iter().all(|(k, i, _)| *k <= 1 || *k == 6 || *k == 7 || *k == 10 || *i < self.mem.len())
+            // a CBOR-format store (a reader saves it): only calls that do not need the store's Config to be JSON
+            && (!self.cbor() || self.ops.iter().all(|(k, _, _)| matches!(*k, 0 | 3 | 6 | 8 | 9 | 10 | 11)))
             && (0..self.mem.len()).all(|i| !self.chg[i] || standoff(self.mem[i]))
     }
 }
@@ -187,7 +193,7 @@ struct Got {
 
 pub struct Ctx {
     dir: PathBuf,
-    solo: RefCell<HashMap<(Vec<u8>, Vec<bool>, usize, (u8, usize, u8)), Got>>,
+    solo: RefCell<HashMap<(Vec<u8>, Vec<bool>, usize, bool, (u8, usize, u8)), Got>>,
     /// stores with many annotations for the parallel adaptors, by size
     big: RefCell<HashMap<usize, std::rc::Rc<AnnotationStore>>>,
 }
@@ -287,6 +293,10 @@ impl Ctx {
         }
         let config = Config::default().with_workdir(self.dir.to_string_lossy().to_string());
         let mut store = AnnotationStore::new(config).with_id("s");
+        if sc.cbor() {
+            // filename first: the (empty) store switches to the CBOR format, the working directory stays
+            store.set_filename(self.dir.join("s.store.stam.cbor").to_string_lossy().as_ref());
+        }
         let mut first_res = None;
         let mut first_set = None;
         for (i, k) in sc.mem.iter().enumerate() {
@@ -382,7 +392,7 @@ impl Ctx {
     }
 
     fn solo(&self, sc: &Scen, op: (u8, usize, u8)) -> Got {
-        let key = (sc.mem.clone(), sc.chg.clone(), sc.nkeys, op);
+        let key = (sc.mem.clone(), sc.chg.clone(), sc.nkeys, sc.cbor(), op);
         if let Some(g) = self.solo.borrow().get(&key) {
             return g.clone();
         }
@@ -899,6 +909,42 @@ fn run_op(store: &AnnotationStore, sc: &Scen, op: (u8, usize, u8)) -> Got {
             Got { tokens: vec![], text }
         }
         1 => store_op(store),
+        10 => match store.save() {
+            Ok(()) => Got { tokens: vec![], text: String::new() },
+            Err(e) => Got { tokens: vec![-2], text: format!("{:?}", e) },
+        },
+        11 | 12 => {
+            // the trait call with a Config whose dataformat is not JSON: refused
+            let refusing = Config::default().with_dataformat(if variant % 2 == 0 { DataFormat::CBOR } else { DataFormat::Csv });
+            let id = member_id(i);
+            let r = if is_resource(sc.mem[i]) {
+                match store.resource(id.as_str()) {
+                    Some(r) => <TextResource as ToJson>::to_json_string(r.as_ref(), &refusing),
+                    None => return Got { tokens: vec![-6], text: String::new() },
+                }
+            } else {
+                match store.dataset(id.as_str()) {
+                    Some(d) => <AnnotationDataSet as ToJson>::to_json_string(d.as_ref(), &refusing),
+                    None => return Got { tokens: vec![-6], text: String::new() },
+                }
+            };
+            let first = match r {
+                Ok(text) => match serde_json::from_str::<serde_json::Value>(&text) {
+                    Ok(v) => Got { tokens: vec![form_of(&v, i)], text },
+                    Err(_) => Got { tokens: vec![-5], text },
+                },
+                Err(e) => Got { tokens: vec![-2], text: format!("{:?}", e) },
+            };
+            if kind == 11 {
+                return first;
+            }
+            let second = store_op(store);
+            let mut tokens = first.tokens.clone();
+            tokens.push(-7);
+            tokens.extend(second.tokens.iter());
+            tokens.push(-7);
+            Got { tokens, text: format!("{}\n----\n{}", first.text, second.text) }
+        }
         8 | 9 => {
             // to_txt_file: 8 = an export under the same file name in another directory,
             // 9 = the resource's own stand-off file (plain-text stand-off resources only)
@@ -933,7 +979,11 @@ fn run_op(store: &AnnotationStore, sc: &Scen, op: (u8, usize, u8)) -> Got {
                 Some(w) => w.join(&name),
                 None => std::path::PathBuf::from(&name),
             };
-            let r = store.to_json_file(&name, store.config());
+            let export_config = match store.config().workdir() {
+                Some(w) => Config::default().with_workdir(w.to_string_lossy().to_string()),
+                None => Config::default(),
+            };
+            let r = store.to_json_file(&name, &export_config);
             let got = match r {
                 Ok(()) => match std::fs::read_to_string(&path) {
                     Ok(text) => store_tokens(text),
@@ -1299,6 +1349,55 @@ pub fn generate(out: &mut Out, tier: &str, seed: u64) {
         }
     }
 
+    // H. refused calls (trait call with a non-JSON Config: Err, and nothing may stay behind on the
+    //    thread) and CBOR-format stores (save() writes one binary file and must leave the stand-off
+    //    state alone)
+    for (mem, chg) in [(vec![1u8, 4u8], vec![true, true]), (vec![1, 4], vec![false, false]), (vec![4], vec![true]), (vec![2], vec![true])] {
+        let last = mem.len() - 1;
+        let refused: Vec<(u8, usize, u8)> = vec![(11, last, 0), (12, last, 0), (12, 0, 1)];
+        let partners: Vec<(u8, usize, u8)> = vec![(1, 0, 0), (3, 0, 0), (2, last, 0), (7, 0, 0), (12, last, 0), (11, 0, 1)];
+        for x in &refused {
+            for y in &partners {
+                let sc = Scen { mem: mem.clone(), chg: chg.clone(), ops: vec![*x, *y], nkeys: 1 };
+                out.count_n("scenarios_refused_or_cbor", 1);
+                let e = explore(&ctx, out, &sc, if thorough { 1_500 } else { 50 }, "two_threads_all_schedules");
+                if !e.complete {
+                    sample(&ctx, out, &sc, &mut rng, if thorough { 100 } else { 15 }, "two_threads_random_schedule");
+                }
+            }
+        }
+        // CBOR-format store: a reader saves it, the others serialise members / export the store as JSON
+        let others: Vec<(u8, usize, u8)> = vec![(3, 0, 0), (3, last, 0), (6, 0, 0), (10, 0, 0), (11, last, 0), (8, 0, 0), (0, 0, 0)];
+        for y in &others {
+            let sc = Scen { mem: mem.clone(), chg: chg.clone(), ops: vec![(10, 0, 0), *y], nkeys: 1 };
+            out.count_n("scenarios_refused_or_cbor", 1);
+            let e = explore(&ctx, out, &sc, if thorough { 1_500 } else { 50 }, "two_threads_all_schedules");
+            if !e.complete {
+                sample(&ctx, out, &sc, &mut rng, if thorough { 100 } else { 15 }, "two_threads_random_schedule");
+            }
+        }
+        for ops in [vec![(10u8, 0usize, 0u8), (3, 0, 0), (6, 0, 0)], vec![(10, 0, 0), (3, last, 0), (3, 0, 0)]] {
+            let sc = Scen { mem: mem.clone(), chg: chg.clone(), ops, nkeys: 1 };
+            sample(&ctx, out, &sc, &mut rng, if thorough { 150 } else { 25 }, "three_threads_random_schedule");
+            out.count_n("scenarios_refused_or_cbor", 1);
+        }
+    }
+    // refused calls as jobs on a shared pool next to serialisations (1-3 workers: the same worker runs both)
+    for workers in 1..=3i64 {
+        for how in 0..=1i64 {
+            let sc = Scen { mem: vec![1, 4], chg: vec![false, false], ops: vec![(11, 1, 0), (1, 0, 0), (3, 0, 0)], nkeys: 3 };
+            let mut v = match sc.to_sx(&[]) {
+                Sx::L(v) => v,
+                x => vec![x],
+            };
+            v.extend(vec![a(2), a(3), a(workers), a(if thorough { 600 } else { 150 }), a(how)]);
+            let req = l(v);
+            let (i, o, nt) = ctx.exec(&req);
+            out.case(&i, &o, nt, &req);
+            out.count("shared_rayon_pool");
+        }
+    }
+
     // F. readers whose serialisations run as jobs on ONE shared rayon pool: a worker that waits
     //    inside one call may run another reader's whole call in the meantime (work stealing), so
     //    nothing that belongs to one logical call may live in the worker thread across such a wait
@@ -1346,6 +1445,6 @@ pub fn generate(out: &mut Out, tier: &str, seed: u64) {
     }
 }
 
-pub const RULE: &str = "Deterministic scheduler over real threads holding &AnnotationStore (blocked at the stam_verif yield points before every access to the serialisation mode and the changed flags; one thread runs at a time); every execution rebuilds the store and its stand-off files under .cache/work/c20/. A (exhaustive, both tiers): for every store with one member (inline / plain-text stand-off / .json stand-off resource, inline / stand-off dataset; changed flag clear and set: 8 stores) every unordered pair of calls out of {store.to_json_string, ToJson::to_json_string(member, store config), inherent member.to_json_string(), ToJson::to_json_string(member, unrelated Config), pure readers: annotation iteration, find_text + reverse lookups, query, .parallel() through rayon}: ALL schedules, enumerated depth-first by re-execution (the generator fails if a pair exceeds the cap). A3: two calls on one thread (ToJson::to_json_string(member) followed by store.to_json_string), and store.to_json_file into a file of the thread's own (read back), each next to every other call on the one-member stores: all schedules up to 100 (thorough 1500), 25 (100) random ones beyond. A4: stores with a stand-off dataset whose file cannot be written (5 stores), pairs out of {store.to_json_string, store.to_json_string twice on one thread, the member calls, a pure reader}: all schedules up to 80 (thorough 1500), 20 (100) random beyond; every call that has to rewrite the file must return Err every time. A2: stores with one resource and one dataset (5 kind combinations x all flag combinations): all schedules up to 800 (thorough 4000), 100 random ones beyond, for pairs of {store serialisation, ToJson(dataset)}; 10 (thorough 100) random schedules for the other pairs. B: three threads on one-member stores: 20 random schedules per triple (quick), all schedules up to 1000 + 300 random beyond (thorough). C: random stores of up to 2+2 members with 2-3 random calls under random schedules. D: free runs - 2-4 threads started together WITHOUT the scheduler (real pre-emption) on stores of 1-5 members. E: the parallel adaptors: stores with 1030 and 4000 (thorough: 1030, 5000, 12000) annotations, rayon pools of 2..8 workers, two reader threads at once, 5 (12) repetitions each, three iterator chains (all annotations; data-filtered via the key; annotations().filter_key_value): len, collect, enumerate/zip fold, find_first, filter+collect of chain.parallel() against the sequential iterator, order included. G: the changed flag as shared state: stores with a pending plain-text / .json stand-off resource (its content NOT on disk), an unwritable plain-text stand-off resource (kind 6), with datasets: resource.to_txt_file(<another directory>/<same name>) (export), resource.to_txt_file(<own stand-off file>), store serialisation (once, twice), member serialisations in pairs (all schedules up to 60, thorough 1500) and triples (random schedules): a call that returned Ok with a member as @include must have left the member's content in its stand-off file, a failing stand-off write fails for every reader. F: 2-4 readers whose calls (ToJson::to_json_string(dataset), store.to_json_string, inherent resource/dataset to_json_string) run as jobs on ONE shared rayon pool of 2-6 workers (install() from ordinary threads, or all spawned into one pool scope) over stores with a stand-off resource and stand-off datasets of 2, 3, 8, 24, 100 keys, 400 (thorough 1500) rounds per reader, every returned string compared with the solo string. Per thread: the member forms in the string it obtained and equality of the whole string with the string the same call returns alone on an identical store, compared with the specified solo result and with the model's prediction for the executed schedule; per run: whether every stand-off file still holds its member's content. Non-trivial: a stand-off member exists and at least two threads were scheduled twice or more. distinct = distinct (scenario, schedule) lines.";
+pub const RULE: &str = "Deterministic scheduler over real threads holding &AnnotationStore (blocked at the stam_verif yield points before every access to the serialisation mode and the changed flags; one thread runs at a time); every execution rebuilds the store and its stand-off files under .cache/work/c20/. A (exhaustive, both tiers): for every store with one member (inline / plain-text stand-off / .json stand-off resource, inline / stand-off dataset; changed flag clear and set: 8 stores) every unordered pair of calls out of {store.to_json_string, ToJson::to_json_string(member, store config), inherent member.to_json_string(), ToJson::to_json_string(member, unrelated Config), pure readers: annotation iteration, find_text + reverse lookups, query, .parallel() through rayon}: ALL schedules, enumerated depth-first by re-execution (the generator fails if a pair exceeds the cap). A3: two calls on one thread (ToJson::to_json_string(member) followed by store.to_json_string), and store.to_json_file into a file of the thread's own (read back), each next to every other call on the one-member stores: all schedules up to 100 (thorough 1500), 25 (100) random ones beyond. A4: stores with a stand-off dataset whose file cannot be written (5 stores), pairs out of {store.to_json_string, store.to_json_string twice on one thread, the member calls, a pure reader}: all schedules up to 80 (thorough 1500), 20 (100) random beyond; every call that has to rewrite the file must return Err every time. A2: stores with one resource and one dataset (5 kind combinations x all flag combinations): all schedules up to 800 (thorough 4000), 100 random ones beyond, for pairs of {store serialisation, ToJson(dataset)}; 10 (thorough 100) random schedules for the other pairs. B: three threads on one-member stores: 20 random schedules per triple (quick), all schedules up to 1000 + 300 random beyond (thorough). C: random stores of up to 2+2 members with 2-3 random calls under random schedules. D: free runs - 2-4 threads started together WITHOUT the scheduler (real pre-emption) on stores of 1-5 members. E: the parallel adaptors: stores with 1030 and 4000 (thorough: 1030, 5000, 12000) annotations, rayon pools of 2..8 workers, two reader threads at once, 5 (12) repetitions each, three iterator chains (all annotations; data-filtered via the key; annotations().filter_key_value): len, collect, enumerate/zip fold, find_first, filter+collect of chain.parallel() against the sequential iterator, order included. G: the changed flag as shared state: stores with a pending plain-text / .json stand-off resource (its content NOT on disk), an unwritable plain-text stand-off resource (kind 6), with datasets: resource.to_txt_file(<another directory>/<same name>) (export), resource.to_txt_file(<own stand-off file>), store serialisation (once, twice), member serialisations in pairs (all schedules up to 60, thorough 1500) and triples (random schedules): a call that returned Ok with a member as @include must have left the member's content in its stand-off file, a failing stand-off write fails for every reader. H: refused calls (ToJson::to_json_string(member, Config with CBOR/CSV dataformat): Err) alone and followed by store.to_json_string on the same thread, next to serialisations (pairs, all schedules up to 50 / 1500), also as jobs on a shared pool of 1-3 workers; CBOR-format stores with pending stand-off members: store.save() next to inherent member serialisations, the JSON export store.to_json_file, exports (pairs and triples): results as alone, every Ok @include has its file. F: 2-4 readers whose calls (ToJson::to_json_string(dataset), store.to_json_string, inherent resource/dataset to_json_string) run as jobs on ONE shared rayon pool of 2-6 workers (install() from ordinary threads, or all spawned into one pool scope) over stores with a stand-off resource and stand-off datasets of 2, 3, 8, 24, 100 keys, 400 (thorough 1500) rounds per reader, every returned string compared with the solo string. Per thread: the member forms in the string it obtained and equality of the whole string with the string the same call returns alone on an identical store, compared with the specified solo result and with the model's prediction for the executed schedule; per run: whether every stand-off file still holds its member's content. Non-trivial: a stand-off member exists and at least two threads were scheduled twice or more. distinct = distinct (scenario, schedule) lines.";
 
 pub const EXHAUSTIVE: bool = true;
